@@ -27,6 +27,8 @@ from .interp_val import ValMixin
 class Interp(BaseMixin, ExprMixin, AttrMixin, CallMixin, BuiltinsMixin, StmtMixin, ContractMixin, ValMixin):
     def __init__(self, ex: Explorer):
         self.ex = ex
+        ex.on_prune = self._pruned
+        self._pruned_seen = set()
         self.obligations: List[Any] = []
         self.writes: List[tuple] = []
         self.contracts_used = set()
@@ -51,6 +53,20 @@ class Interp(BaseMixin, ExprMixin, AttrMixin, CallMixin, BuiltinsMixin, StmtMixi
         self.meta_boxes = {}
         self.qual_stack = []
         self.meta_ops = []
+
+    def _pruned(self, cond):
+        """every branch the quick solver prunes must really be dead: one obligation per pruned branch"""
+        import z3 as _z3
+        st = self.ex.st
+        key = (tuple(st.sig), cond.get_id() if cond is not None else None)
+        if key in self._pruned_seen:
+            return
+        self._pruned_seen.add(key)
+        from .core import Obligation
+        hyps = list(self.ex.base_hyps) + list(st.pc) + ([cond] if cond is not None else [])
+        ob = Obligation(f'{self.fuv_name}/pruned-branch-is-dead', 'pruned', 'aux', hyps, _z3.BoolVal(False),
+                        tuple(st.sig), exact=True, where=str(cond)[:80] if cond is not None else '')
+        self.obligations.append(ob)
 
     # -- third-party / library functions with models (keyed by function object)
     def call_function(self, func, args, kwargs, fr, node=None, owner=None):
